@@ -362,6 +362,7 @@ impl G1Affine {
         let mut raw = blst_p1_affine::default();
         let success =
             unsafe { blst_p1_deserialize(&mut raw, bytes.as_ptr()) == BLST_ERROR::BLST_SUCCESS };
+        let success = success && (bytes[0] & 0x80) == 0;
         CtOption::new(G1Affine(raw), Choice::from(success as u8))
     }
 
